@@ -387,6 +387,26 @@ def c09_exports(mask: int, nsdepth: int) -> bool:
     return ok
 
 
+def c09_ignore_scopes(sel: int, form: int) -> bool:
+    """
+    With any subset of 7 classes on the ignore list (spelled exactly, compactly or padded): every statement of the
+    module body is a recognised, balanced registration and every py::class_/py::enum_ is attached to a variable that
+    the translation unit declares (an ignored class's enums must not be emitted on its missing instance variable).
+    pre: 0 <= sel < 128 and 0 <= form <= 2
+    post: _
+    """
+    from harness import c03_census
+    sel = pick(sel, 0, 128)
+    form = pick(form, 0, 3) if THOROUGH else (sel + 1) % 3
+    with concrete():
+        ok = c03_census.check_ignore(sel, form, (sel // 5) % 2)
+        if not ok:
+            global LAST_FAILURE
+            LAST_FAILURE = c03_census.LAST_FAILURE
+    reached({"sel": sel, "form": form} if (not ok or sel == 24) else None)
+    return ok
+
+
 def conds(tier):
     q = tier == "quick"
     t = (lambda x, y: x) if q else (lambda x, y: y)
@@ -408,6 +428,8 @@ def conds(tier):
                 bounds="1-3 instantiations x 4 member kinds using This / This::Mode / T::Value x namespace depth 0-2"),
         xh.Cond(M, "c09_exports", t(200, 600), kind=sb, examples=["mask=15, nsdepth=1", "mask=2, nsdepth=2", "mask=9, nsdepth=0"],
                 bounds="15 subsets of 4 serializable classes (plain, 2- and 3-parameter templates, nested template argument) x namespace depth"),
+        xh.Cond(M, "c09_ignore_scopes", t(300, 1200), kind=sb, examples=["sel=8, form=1", "sel=40, form=2", "sel=127, form=0"],
+                bounds="128 subsets of 7 classes on the ignore list x %s" % ("3 spellings" if not q else "spelling derived (shifted against C03's derivation)")),
         xh.Cond(M, "c09_variables", t(300, 900), kind=sb, examples=["d=1, t=0, depth=1, topdepth=0", "d=3, t=2, depth=3, topdepth=2", "d=0, t=4, depth=2, topdepth=1"],
                 bounds="%d initialiser shapes x %d types x namespace depth 0-3 x top-namespace depth" % (len(VAR_DEFAULTS), len(VAR_TYPES))),
     ]
